@@ -169,6 +169,10 @@ def global_mutations(ctx: Ctx, rule: str):
                     recv = nd.func.value
                     if isinstance(recv, ast.Name) and recv.id in module_names and recv.id not in locals_:
                         ctx.fail(rule, f.key(f"mutate::{norm(nd.func)}"), f"{f.qualname} mutates the module-level container `{recv.id}` ({norm(nd)[:60]})", f.where(nd))
+                    elif isinstance(recv, ast.Name) and recv.id in locals_:
+                        g = global_root(recv)
+                        if g and g not in ("logger",):
+                            ctx.fail(rule, f.key(f"mutate::{norm(nd.func)}"), f"{f.qualname} mutates `{recv.id}`, which is the module-level object `{g}` ({norm(nd)[:60]}): what one call adds is still there for the next call", f.where(nd))
         decs = [d for d in f.decorators() if "cache" in d and "cached_property" not in d]
         if decs and "." not in f.qualname:
             ctx.fail(rule, f.key("cache-decorator"), f"{f.qualname} is memoised at module level ({decs}): results depend on earlier calls if any argument is mutable or compared by identity", f.where())
